@@ -112,7 +112,9 @@ func (j *Join) Exec() ([]any, error) {
 		{
 			return j.StraightJoin()
 		}
-	case j.joinType.IsHashJoin() || hashJoinAnalyze(j.leftIdent, j.rightIdent, j.joinExpr):
+	// a hash join can only answer a conjunction of equalities; a HASH_JOIN
+	// requested for any other ON expression falls back to the nested loop
+	case hashJoinAnalyze(j.leftIdent, j.rightIdent, j.joinExpr):
 		{
 			return j.HashJoin()
 		}
